@@ -318,4 +318,8 @@ def load_known_findings():
     p = os.path.join(VERIF, 'known_findings.json')
     if not os.path.exists(p):
         return []
-    return json.load(open(p))['findings']
+    out = json.load(open(p))['findings']
+    import glob
+    for q in sorted(glob.glob(os.path.join(VERIF, 'known_findings.d', '*.json'))):
+        out += json.load(open(q))['findings']
+    return out
